@@ -3,5 +3,6 @@ CONSTANTS
   Threads = {1, 2, 3}
   MaxOps = 3
   Atomic = TRUE
-INVARIANTS TypeOK Unique IncreasingPerThread CopiesCarry BelowCounter
+  Block = 1
+INVARIANTS TypeOK Unique IncreasingPerThread CopiesCarry BelowCounter HappensBeforeOrdered OrderComplete
 CHECK_DEADLOCK FALSE
